@@ -206,8 +206,11 @@ theorem C16_backed_seal_pool (env : Env) (s : State) (a : Option ProposerAction)
   have b0 := C16_backed_builtins_pool env s hp.poolKeys k hb
   obtain ⟨g, b3⟩ := C16_backed_settle_pool env (createBuiltins s) t3 (C16_settle_of_phases ht1 ht2 ht3) hp0 hl k hinj
   have b3 := b3 b0
-  have b1 := C16_backed_pegging_pool env t3 s1 hpeg g.poolKeys k b3
-  obtain ⟨c1, n1, _, _⟩ := BackL.processPegging_back hpeg g.poolKeys (env.liqHash k.toBytes)
+  -- the second `create_builtins` (since the `fix:` for F24): a builtin pool emptied by the withdrawals is made afresh
+  have hn3 := (BackL.createBuiltins_back t3 (env.liqHash k.toBytes) g.poolKeys).1
+  have b3' := C16_backed_builtins_pool env t3 g.poolKeys k b3
+  have b1 := C16_backed_pegging_pool env (createBuiltins t3) s1 hpeg hn3 k b3'
+  obtain ⟨c1, n1, _, _⟩ := BackL.processPegging_back hpeg hn3 (env.liqHash k.toBytes)
   have k1 : s1.coins.Nodup := by rw [c1]; exact g.coinKeys
   -- subsidy
   have hs2 : Backed env s2 k ∧ s2.coins.Nodup := by
